@@ -46,6 +46,10 @@ class SolveTriangular(ArrayExpr):
     def _name(self):
         return f"solve-triangular-{self.deterministic_token}"
 
+    def _requires_grid_preservation(self, dependency):
+        # ``_layer`` pairs the blocks of several inputs by position
+        return True
+
     def _layer(self):
         vchunks = len(self.a.chunks[1])
         hchunks = 1 if self.b.ndim == 1 else len(self.b.chunks[1])
